@@ -1,7 +1,7 @@
 #!/usr/bin/env python3
 """(Re)generate policy/tables/str_ops.json: the inventory of character-dropping / character-altering / tokenising string
-operations per library function (closures folded into their function).  Run only after reviewing the diff it produces."""
-import collections
+operations per library function (closures folded into their function) and the list of library functions it was
+reviewed against.  Run only after reviewing the diff it produces."""
 import json
 import os
 import sys
@@ -9,16 +9,18 @@ import sys
 V = os.path.dirname(os.path.dirname(os.path.abspath(__file__)))
 sys.path.insert(0, os.path.join(V, "policy"))
 from sa import facts, prog  # noqa: E402
-from props.C01 import strip_closures  # noqa: E402
-from props.strops import STR_OPS, is_str_op  # noqa: E402
+from props import strops  # noqa: E402
 
 P = prog.Program(facts.load("/repo", "default"))
-cnt = collections.Counter()
-for b in P.bodies.values():
-    if b.unit != "svgdx-lib":
-        continue
-    for (bb, t, c) in b.call_sites(is_str_op):
-        cnt[(strip_closures(b.path), c.path.split("::")[-1])] += 1
+cnt, where, edges, funcs = strops.survey(P)
 ents = [dict(function=f, op=o, count=n) for (f, o), n in sorted(cnt.items())]
-json.dump(dict(comment="Frozen inventory of string operations that drop, alter or tokenise characters, per library function (rule A14.str-ops). A change here means the way some text / attribute value / class / expression is cut up or cleaned has changed: review it, then regenerate with tools/gen_str_ops.py.", entries=ents), open(os.path.join(V, "policy", "tables", "str_ops.json"), "w"), indent=1)
-print(len(ents), "entries,", sum(cnt.values()), "sites")
+json.dump(
+    dict(
+        comment="Frozen inventory of string operations that drop, alter, search or tokenise characters, per library function (rule A14.str-ops; verdicts are per property scope and operation, see props/strops.py). A change here means the way some text / attribute value / class / expression is cut up or cleaned has changed: review it, then regenerate with tools/gen_str_ops.py. `functions` lists the library functions that existed at review time: a function not listed is a new helper and belongs to the scope that calls it.",
+        entries=ents,
+        functions=sorted(funcs),
+    ),
+    open(os.path.join(V, "policy", "tables", "str_ops.json"), "w"),
+    indent=1,
+)
+print(len(ents), "entries,", sum(cnt.values()), "sites,", len(funcs), "functions")
